@@ -75,6 +75,50 @@ func vfWellFormed(al align.Alignment) {
 	}
 }
 
+// vfPhylipDeclared reads the counts of a Phylip header line of the plain form
+// blanks, digits, blanks, digits, blanks, newline (1..4 digits each). ok is false for any other
+// first line: the check below then claims nothing.
+func vfPhylipDeclared(in string) (n, L int, ok bool) {
+	i := 0
+	blanks := func() {
+		for i < len(in) && (in[i] == ' ' || in[i] == '\t') {
+			i++
+		}
+	}
+	number := func() (int, bool) {
+		v, d := 0, 0
+		for i < len(in) && in[i] >= '0' && in[i] <= '9' {
+			v = v*10 + int(in[i]-'0')
+			i++
+			d++
+		}
+		return v, d >= 1 && d <= 4
+	}
+	blanks()
+	n, ok1 := number()
+	j := i
+	blanks()
+	if i == j {
+		return 0, 0, false
+	}
+	L, ok2 := number()
+	blanks()
+	if !ok1 || !ok2 || i >= len(in) || in[i] != '\n' {
+		return 0, 0, false
+	}
+	return n, L, true
+}
+
+// vfMatchesPhylipHeader: a successfully parsed alignment does not contradict the counts declared
+// in the header of its file.
+func vfMatchesPhylipHeader(al align.Alignment, in string) {
+	if n, L, ok := vfPhylipDeclared(in); ok {
+		verifReach("header counts checked")
+		verifAssert(al.NbSequences() == n, "number of sequences = count declared in the header")
+		verifAssert(al.Length() == L, "length = length declared in the header")
+	}
+}
+
 func vfWellFormedBag(sb align.SeqBag) {
 	verifAssert(sb != nil, "non-nil sequence set on success")
 	n := sb.NbSequences()
@@ -125,6 +169,7 @@ func vfParse(format int, in string) {
 		verifReach("parsed")
 		if err == nil && al != nil { // (nil, nil) is the documented end-of-stream marker
 			vfWellFormed(al)
+			vfMatchesPhylipHeader(al, in)
 		}
 	case fNexus:
 		al, err := nexus.NewParser(strings.NewReader(in)).Parse()
@@ -157,6 +202,7 @@ const (
 	tNexus     = "#NEXUS\nbegin data;\ndimensions ntax=2 nchar=12;\nformat datatype=dna;\nmatrix\ns1 ACGTACGTAC-T\nseq2 ACGAACGTTCGT\n;\nend;\n"
 	tNexusCmt  = "#NEXUS\n[c]\nbegin taxa;\ndimensions ntax=2;\ntaxlabels a b;\nend;\nbegin data;\ndimensions ntax=2 nchar=3;\nformat datatype=dna gap=- missing=?;\nmatrix\na AC-\nb A?G\n;\nend;\n"
 	tClustal   = "CLUSTAL W (goalign version Unset)\n\ns1     ACGTACGTAC-T 12\nseq2   ACGAACGTTCGT 12\n       *** **** * *\n"
+	tClustalBlk = "CLUSTAL W (x)\n\ns1     ACGTA 5\nseq2   ACGAA 5\n       *** *\n\ns1     CG-T 9\nseq2   CGTT 9\n       ** *\n"
 	tStockholm = "# STOCKHOLM 1.0\n#=GF ID   Goalign generated alignment\ns1\tACGTACGTAC-T\nseq2\tACGAACGTTCGT\n//"
 	tStockMark = "# STOCKHOLM 1.0\n#=GF ID x\n#=GS a AC 1\na AC-\n#=GR a SS ...\nb ACG\n#=GC SS_cons ...\n//\n"
 )
@@ -178,6 +224,9 @@ func vfTemplate(format, variant int) string {
 		}
 		return tNexus
 	case fClustal:
+		if variant == 1 {
+			return tClustalBlk
+		}
 		return tClustal
 	case fStockholm:
 		if variant == 1 {
@@ -190,7 +239,7 @@ func vfTemplate(format, variant int) string {
 
 func vfNbVariants(format int) int {
 	switch format {
-	case fPhylip, fNexus, fStockholm:
+	case fPhylip, fNexus, fStockholm, fClustal:
 		return 2
 	}
 	return 1
@@ -264,6 +313,87 @@ func H_C03_truncate() { vfRunTruncate(nondetRange(fFasta, fStockholm)) }
 // bounds: 7 parsers x their templates x every line x {delete, duplicate}
 //verif: maxsteps=3000000
 func H_C03_lines() { vfRunLines(nondetRange(fFasta, fStockholm)) }
+
+// vfTokens: the template cut into maximal runs of blank (space, tab, newline) and non-blank bytes.
+func vfTokens(tmpl string) []string {
+	var out []string
+	i := 0
+	for i < len(tmpl) {
+		j := i
+		blank := tmpl[i] == ' ' || tmpl[i] == '\t' || tmpl[i] == '\n'
+		for j < len(tmpl) && (tmpl[j] == ' ' || tmpl[j] == '\t' || tmpl[j] == '\n') == blank {
+			j++
+		}
+		out = append(out, tmpl[i:j])
+		i = j
+	}
+	return out
+}
+
+// vfRunTokens: token splices: one token (word or blank run) deleted, duplicated, or moved to
+// the place of another one.
+func vfRunTokens(format int) {
+	tmpl := vfTemplate(format, nondetRange(0, vfNbVariants(format)-1))
+	toks := vfTokens(tmpl)
+	k := nondetRange(0, len(toks)-1)
+	var out []string
+	switch nondetRange(0, 2) {
+	case 0: // delete
+		out = append(append(out, toks[:k]...), toks[k+1:]...)
+	case 1: // duplicate
+		out = append(append(append(out, toks[:k+1]...), toks[k]), toks[k+1:]...)
+	default: // overwrite token k by a copy of token m
+		m := nondetRange(0, len(toks)-1)
+		out = append(out, toks...)
+		out[k] = toks[m]
+	}
+	vfParse(format, strings.Join(out, ""))
+}
+
+// H_C03_tokens_fasta_phylip: token splices of the FASTA and Phylip templates.
+// bounds: every template of FASTA (both parsers), Phylip relaxed and strict; every token (word or blank run) deleted, duplicated, or replaced by a copy of any other token
+//verif: maxsteps=3000000
+func H_C03_tokens_fasta_phylip() { vfRunTokens(nondetRange(fFasta, fPhylipStrict)) }
+
+// H_C03_tokens_other: token splices of the Nexus, Clustal and Stockholm templates.
+// bounds: every template of the three formats; every token deleted, duplicated, or replaced by a copy of any other token
+//verif: maxsteps=3000000
+func H_C03_tokens_other() { vfRunTokens(nondetRange(fNexus, fStockholm)) }
+
+// vfBody returns n symbolic bytes, each one of the listed characters.
+func vfBody(n int, set string) string {
+	b := make([]byte, n)
+	for i := range b {
+		c := nondetByte()
+		ok := false
+		for k := 0; k < len(set); k++ {
+			ok = ok || c == set[k]
+		}
+		assume(ok)
+		b[i] = c
+	}
+	return string(b)
+}
+
+// H_C03_body_free: a valid frame around a free body: the sequence block of each format filled with arbitrary short text over the characters that matter there (a name letter, residues, blank, newline, the format's own punctuation).
+// bounds: Nexus "matrix ... ;" with and without a DIMENSIONS line, Clustal after the header line, Stockholm between header and "//", Phylip after a "2 2" header; body of 0..5 bytes over {a, C, -, space, newline} plus ';' (Nexus), '*' (Clustal), '#' and '/' (Stockholm)
+// outside: longer bodies, other characters (covered one at a time by the *_mutate1 harnesses)
+//verif: maxsteps=3000000
+func H_C03_body_free() {
+	n := nondetRange(0, 5)
+	switch nondetRange(0, 4) {
+	case 0:
+		vfParse(fNexus, "#NEXUS\nbegin data;\ndimensions ntax=2 nchar=2;\nformat datatype=dna;\nmatrix\n"+vfBody(n, "aC- \n;")+"\n;\nend;\n")
+	case 1:
+		vfParse(fNexus, "#NEXUS\nbegin data;\nmatrix\n"+vfBody(n, "aC- \n;")+"\n;\nend;\n")
+	case 2:
+		vfParse(fClustal, "CLUSTAL W (x)\n\n"+vfBody(n, "aC- \n*"))
+	case 3:
+		vfParse(fStockholm, "# STOCKHOLM 1.0\n"+vfBody(n, "aC- \n#/")+"\n//\n")
+	default:
+		vfParse(nondetRange(fPhylip, fPhylipStrict), "2 2\n"+vfBody(n, "aC- \n"))
+	}
+}
 
 // H_C03_fasta_free: every ASCII input of up to 4 bytes through the FASTA parsers.
 // bounds: length 0..4 (quick), every byte 0..127
